@@ -18,6 +18,9 @@ package build
 
 import (
 	"fmt"
+	"go/ast"
+	"go/constant"
+	"go/types"
 	"io"
 	"os"
 	"os/exec"
@@ -27,6 +30,7 @@ import (
 	"strings"
 
 	"github.com/goplus/llgo/internal/env"
+	"github.com/goplus/llgo/internal/goembed"
 	"github.com/goplus/llgo/internal/packages"
 	gopackages "golang.org/x/tools/go/packages"
 )
@@ -169,6 +173,26 @@ func (c *context) collectPackageInputs(m *manifestBuilder, pkg *aPackage) error 
 		m.pkg.OtherFiles = otherList
 	}
 
+	// Files matched by //go:embed directives (their bytes are compiled into the package)
+	embedList, err := digestEmbedFiles(c, pkg)
+	if err != nil {
+		return fmt.Errorf("digest embed files: %w", err)
+	}
+	m.pkg.EmbedFiles = embedList
+
+	// C/C++ sources named by the LLGoFiles constant (compiled into the package archive)
+	linkFiles := pkgLinkFileSources(p)
+	if pkg.AltPkg != nil {
+		linkFiles = append(linkFiles, pkgLinkFileSources(pkg.AltPkg.Package)...)
+	}
+	if len(linkFiles) > 0 {
+		linkList, err := digestFilesWithOverlay(linkFiles, c.conf.Overlay)
+		if err != nil {
+			return fmt.Errorf("digest LLGoFiles: %w", err)
+		}
+		m.pkg.LinkFiles = linkList
+	}
+
 	// Rewrite vars
 	if len(pkg.rewriteVars) > 0 {
 		rewrites := make(map[string]string, len(pkg.rewriteVars))
@@ -182,6 +206,62 @@ func (c *context) collectPackageInputs(m *manifestBuilder, pkg *aPackage) error 
 	// (LINK_ARGS/NEED_RT/NEED_PY_INIT are appended later in saveToCache)
 
 	return nil
+}
+
+// digestEmbedFiles resolves the //go:embed directives of the package exactly as
+// buildPkg does and digests every embedded file by content.
+func digestEmbedFiles(c *context, pkg *aPackage) ([]embedDigest, error) {
+	syntax := pkg.Syntax
+	if pkg.AltPkg != nil {
+		syntax = append(append([]*ast.File(nil), syntax...), pkg.AltPkg.Syntax...)
+	}
+	if len(syntax) == 0 || c.conf == nil || c.conf.Fset == nil {
+		return nil, nil
+	}
+	embedMap, err := goembed.LoadDirectives(c.conf.Fset, syntax)
+	if err != nil || len(embedMap) == 0 {
+		// buildPkg reports directive errors; the fingerprint must not hide them
+		return nil, nil
+	}
+	var list []embedDigest
+	for name, v := range embedMap {
+		for _, f := range v.Files {
+			list = append(list, embedDigest{Var: name, Name: f.Name, Hash: digestBytes(f.Data)})
+		}
+	}
+	sort.Slice(list, func(i, j int) bool {
+		if list[i].Var != list[j].Var {
+			return list[i].Var < list[j].Var
+		}
+		return list[i].Name < list[j].Name
+	})
+	return list, nil
+}
+
+// pkgLinkFileSources returns the source files named by the package's LLGoFiles
+// constant ("file1; file2" or "$(cflags): file1; file2"), as clFiles resolves them.
+func pkgLinkFileSources(pkg *packages.Package) []string {
+	if pkg == nil || pkg.Types == nil || len(pkg.GoFiles) == 0 {
+		return nil
+	}
+	o, ok := pkg.Types.Scope().Lookup("LLGoFiles").(*types.Const)
+	if !ok || o.Val().Kind() != constant.String {
+		return nil
+	}
+	files := constant.StringVal(o.Val())
+	if strings.HasPrefix(files, "$") {
+		if pos := strings.IndexByte(files, ':'); pos > 0 {
+			files = files[pos+1:]
+		}
+	}
+	dir := filepath.Dir(pkg.GoFiles[0])
+	var out []string
+	for _, file := range strings.Split(files, ";") {
+		if file = strings.TrimSpace(file); file != "" {
+			out = append(out, filepath.Join(dir, file))
+		}
+	}
+	return out
 }
 
 // collectDependencyInputs adds dependency fingerprints/versions into manifest.
